@@ -28,7 +28,14 @@ def main():
         elif a['cmd'] == 'clean':
             await repo.clean()
         await repo.close()
-    asyncio.run(go())
+    if a.get('fsgate'):
+        # make file-system calls of different threads in one directory coincide (only timing changes): two workers storing the same
+        # object name then really do it at the same time
+        from rv import fsgate
+        with fsgate.Rendezvous(a['dir'], wait=0.06):
+            asyncio.run(go())
+    else:
+        asyncio.run(go())
 
 
 main()
